@@ -1,1 +1,590 @@
-//! reference model `ws` — not built yet.
+//! Reference model for C14: RFC 6455 frames (§5) and the opening-handshake accept key (§4.2.2),
+//! written from the RFC text.  Shares no code with the repository and uses no crate for SHA-1 or
+//! base64 (both are written out below and self-checked against published vectors).
+//!
+//! The decoder is a *judge*, not a codec: for every frame of a byte stream it says what a strict
+//! receiver of the given role must do (`Outcome`), and where the RFC or the property statement
+//! leaves latitude it says which two behaviours are acceptable.
+
+// ------------------------------------------------------------------------------------------------
+// SHA-1 (FIPS 180-4) and base64 (RFC 4648 §4)
+// ------------------------------------------------------------------------------------------------
+
+pub fn sha1(msg: &[u8]) -> [u8; 20] {
+    let mut h: [u32; 5] = [0x6745_2301, 0xEFCD_AB89, 0x98BA_DCFE, 0x1032_5476, 0xC3D2_E1F0];
+    let bit_len = (msg.len() as u64).wrapping_mul(8);
+    let mut data = msg.to_vec();
+    data.push(0x80);
+    while data.len() % 64 != 56 {
+        data.push(0);
+    }
+    data.extend_from_slice(&bit_len.to_be_bytes());
+    for block in data.chunks(64) {
+        let mut w = [0u32; 80];
+        for t in 0..16 {
+            w[t] = u32::from_be_bytes([block[4 * t], block[4 * t + 1], block[4 * t + 2], block[4 * t + 3]]);
+        }
+        for t in 16..80 {
+            w[t] = (w[t - 3] ^ w[t - 8] ^ w[t - 14] ^ w[t - 16]).rotate_left(1);
+        }
+        let (mut a, mut b, mut c, mut d, mut e) = (h[0], h[1], h[2], h[3], h[4]);
+        for (t, wt) in w.iter().enumerate() {
+            let (f, k) = match t {
+                0..=19 => ((b & c) | (!b & d), 0x5A82_7999u32),
+                20..=39 => (b ^ c ^ d, 0x6ED9_EBA1),
+                40..=59 => ((b & c) | (b & d) | (c & d), 0x8F1B_BCDC),
+                _ => (b ^ c ^ d, 0xCA62_C1D6),
+            };
+            let tmp = a.rotate_left(5).wrapping_add(f).wrapping_add(e).wrapping_add(k).wrapping_add(*wt);
+            e = d;
+            d = c;
+            c = b.rotate_left(30);
+            b = a;
+            a = tmp;
+        }
+        h[0] = h[0].wrapping_add(a);
+        h[1] = h[1].wrapping_add(b);
+        h[2] = h[2].wrapping_add(c);
+        h[3] = h[3].wrapping_add(d);
+        h[4] = h[4].wrapping_add(e);
+    }
+    let mut out = [0u8; 20];
+    for i in 0..5 {
+        out[4 * i..4 * i + 4].copy_from_slice(&h[i].to_be_bytes());
+    }
+    out
+}
+
+const B64: &[u8; 64] = b"ABCDEFGHIJKLMNOPQRSTUVWXYZabcdefghijklmnopqrstuvwxyz0123456789+/";
+
+pub fn base64(data: &[u8]) -> String {
+    let mut out = String::with_capacity(data.len().div_ceil(3) * 4);
+    for chunk in data.chunks(3) {
+        let b0 = chunk[0] as u32;
+        let b1 = *chunk.get(1).unwrap_or(&0) as u32;
+        let b2 = *chunk.get(2).unwrap_or(&0) as u32;
+        let n = (b0 << 16) | (b1 << 8) | b2;
+        out.push(B64[(n >> 18) as usize & 63] as char);
+        out.push(B64[(n >> 12) as usize & 63] as char);
+        out.push(if chunk.len() > 1 { B64[(n >> 6) as usize & 63] as char } else { '=' });
+        out.push(if chunk.len() > 2 { B64[n as usize & 63] as char } else { '=' });
+    }
+    out
+}
+
+pub const WS_GUID: &[u8] = b"258EAFA5-E914-47DA-95CA-C5AB0DC85B11";
+
+/// `Sec-WebSocket-Accept` for a `Sec-WebSocket-Key` value (RFC 6455 §4.2.2 step 5.4).
+pub fn accept_key(key: &[u8]) -> String {
+    let mut v = key.to_vec();
+    v.extend_from_slice(WS_GUID);
+    base64(&sha1(&v))
+}
+
+fn hex20(d: [u8; 20]) -> String {
+    d.iter().map(|b| format!("{:02x}", b)).collect()
+}
+
+/// Published vectors: RFC 6455 §1.3 accept key, FIPS 180 SHA-1 examples, RFC 4648 §10 base64.
+pub fn self_check() -> Result<(), String> {
+    let a = accept_key(b"dGhlIHNhbXBsZSBub25jZQ==");
+    if a != "s3pPLMBiTxaQ9kYGzzhZRbK+xOo=" {
+        return Err(format!("RFC 6455 accept-key vector: got {a}"));
+    }
+    let sha: [(&[u8], &str); 3] = [
+        (b"", "da39a3ee5e6b4b0d3255bfef95601890afd80709"),
+        (b"abc", "a9993e364706816aba3e25717850c26c9cd0d89d"),
+        (
+            b"abcdbcdecdefdefgefghfghighijhijkijkljklmklmnlmnomnopnopq",
+            "84983e441c3bd26ebaae4aa1f95129e5e54670f1",
+        ),
+    ];
+    for (m, want) in sha {
+        let got = hex20(sha1(m));
+        if got != want {
+            return Err(format!("SHA-1 vector {:?}: got {got}", String::from_utf8_lossy(m)));
+        }
+    }
+    // a message whose padded form needs a second block (56..=63 bytes) and an exact block
+    let m64 = [b'a'; 64];
+    if hex20(sha1(&m64)) != "0098ba824b5c16427bd7a1122a5a442a25ec644d" {
+        return Err("SHA-1 vector 64×'a'".into());
+    }
+    let b64: [(&[u8], &str); 7] = [
+        (b"", ""),
+        (b"f", "Zg=="),
+        (b"fo", "Zm8="),
+        (b"foo", "Zm9v"),
+        (b"foob", "Zm9vYg=="),
+        (b"fooba", "Zm9vYmE="),
+        (b"foobar", "Zm9vYmFy"),
+    ];
+    for (m, want) in b64 {
+        if base64(m) != want {
+            return Err(format!("base64 vector {:?}", String::from_utf8_lossy(m)));
+        }
+    }
+    // frame vectors of RFC 6455 §5.7
+    let hello_unmasked = [0x81u8, 0x05, 0x48, 0x65, 0x6c, 0x6c, 0x6f];
+    let hello_masked = [0x81u8, 0x85, 0x37, 0xfa, 0x21, 0x3d, 0x7f, 0x9f, 0x4d, 0x51, 0x58];
+    let f = RFrame { fin: true, rsv: 0, opcode: 1, mask: None, payload: b"Hello".to_vec() };
+    if encode(&f, LenEnc::Minimal) != hello_unmasked {
+        return Err("RFC 6455 §5.7 unmasked Hello".into());
+    }
+    let f = RFrame { mask: Some([0x37, 0xfa, 0x21, 0x3d]), ..f };
+    if encode(&f, LenEnc::Minimal) != hello_masked {
+        return Err("RFC 6455 §5.7 masked Hello".into());
+    }
+    let h = parse_header(&hello_masked).ok_or("header of masked Hello")?;
+    if h.len != 5 || h.header_len != 6 || !h.fin || h.opcode != 1 || h.mask != Some([0x37, 0xfa, 0x21, 0x3d]) {
+        return Err("parse_header(masked Hello)".into());
+    }
+    let big = RFrame { fin: true, rsv: 0, opcode: 2, mask: None, payload: vec![0; 256] };
+    if encode(&big, LenEnc::Minimal)[..4] != [0x82, 0x7E, 0x01, 0x00] {
+        return Err("RFC 6455 §5.7 256-byte binary header".into());
+    }
+    let big = RFrame { payload: vec![0; 65536], ..big };
+    if encode(&big, LenEnc::Minimal)[..10] != [0x82, 0x7F, 0, 0, 0, 0, 0, 1, 0, 0] {
+        return Err("RFC 6455 §5.7 64KiB binary header".into());
+    }
+    Ok(())
+}
+
+// ------------------------------------------------------------------------------------------------
+// Frames
+// ------------------------------------------------------------------------------------------------
+
+pub const OP_CONT: u8 = 0;
+pub const OP_TEXT: u8 = 1;
+pub const OP_BINARY: u8 = 2;
+pub const OP_CLOSE: u8 = 8;
+pub const OP_PING: u8 = 9;
+pub const OP_PONG: u8 = 10;
+
+pub fn is_control(op: u8) -> bool {
+    op & 0x8 != 0
+}
+pub fn is_reserved(op: u8) -> bool {
+    !matches!(op, 0 | 1 | 2 | 8 | 9 | 10)
+}
+
+/// One frame as its sender means it (payload is the *unmasked* application data).
+#[derive(Clone, Debug, PartialEq, Eq)]
+pub struct RFrame {
+    pub fin: bool,
+    /// RSV1..3 in bits 2..0
+    pub rsv: u8,
+    pub opcode: u8,
+    pub mask: Option<[u8; 4]>,
+    pub payload: Vec<u8>,
+}
+
+#[derive(Clone, Copy, Debug, PartialEq, Eq)]
+pub enum LenEnc {
+    /// the shortest form, as §5.2 requires
+    Minimal,
+    /// force the 16-bit form (only if the length fits)
+    Ext16,
+    /// force the 64-bit form
+    Ext64,
+}
+
+pub fn xor_mask(data: &mut [u8], mask: [u8; 4]) {
+    for (i, b) in data.iter_mut().enumerate() {
+        *b ^= mask[i % 4];
+    }
+}
+
+/// Header bytes announcing `len` payload bytes (no payload appended): used for hostile frames
+/// whose payload never arrives.
+pub fn header(fin: bool, rsv: u8, opcode: u8, mask: Option<[u8; 4]>, len: u64, enc: LenEnc) -> Vec<u8> {
+    let mut out = Vec::with_capacity(14);
+    out.push((if fin { 0x80 } else { 0 }) | ((rsv & 7) << 4) | (opcode & 0x0f));
+    let mbit = if mask.is_some() { 0x80u8 } else { 0 };
+    let form = match enc {
+        LenEnc::Minimal => {
+            if len <= 125 {
+                0
+            } else if len <= 0xFFFF {
+                1
+            } else {
+                2
+            }
+        }
+        LenEnc::Ext16 if len <= 0xFFFF => 1,
+        LenEnc::Ext16 => 2,
+        LenEnc::Ext64 => 2,
+    };
+    match form {
+        0 => out.push(mbit | len as u8),
+        1 => {
+            out.push(mbit | 126);
+            out.extend_from_slice(&(len as u16).to_be_bytes());
+        }
+        _ => {
+            out.push(mbit | 127);
+            out.extend_from_slice(&len.to_be_bytes());
+        }
+    }
+    if let Some(m) = mask {
+        out.extend_from_slice(&m);
+    }
+    out
+}
+
+pub fn encode(f: &RFrame, enc: LenEnc) -> Vec<u8> {
+    let mut out = header(f.fin, f.rsv, f.opcode, f.mask, f.payload.len() as u64, enc);
+    let at = out.len();
+    out.extend_from_slice(&f.payload);
+    if let Some(m) = f.mask {
+        xor_mask(&mut out[at..], m);
+    }
+    out
+}
+
+#[derive(Clone, Debug, PartialEq, Eq)]
+pub struct Header {
+    pub fin: bool,
+    pub rsv: u8,
+    pub opcode: u8,
+    pub mask: Option<[u8; 4]>,
+    pub len: u64,
+    /// bytes before the payload
+    pub header_len: usize,
+    /// 0 = 7-bit, 1 = 16-bit, 2 = 64-bit length form
+    pub form: u8,
+    /// the length uses the shortest form and (64-bit form) its top bit is clear
+    pub minimal: bool,
+}
+
+/// How many bytes the header starting at `buf[0]` has, if that can be told yet.
+pub fn header_len(buf: &[u8]) -> Option<usize> {
+    if buf.len() < 2 {
+        return None;
+    }
+    let ext = match buf[1] & 0x7f {
+        126 => 2,
+        127 => 8,
+        _ => 0,
+    };
+    Some(2 + ext + if buf[1] & 0x80 != 0 { 4 } else { 0 })
+}
+
+/// Parse a complete header; `None` while bytes are missing.
+pub fn parse_header(buf: &[u8]) -> Option<Header> {
+    let hl = header_len(buf)?;
+    if buf.len() < hl {
+        return None;
+    }
+    let l7 = buf[1] & 0x7f;
+    let (len, form, mut at) = match l7 {
+        126 => (u16::from_be_bytes([buf[2], buf[3]]) as u64, 1u8, 4usize),
+        127 => {
+            let mut b = [0u8; 8];
+            b.copy_from_slice(&buf[2..10]);
+            (u64::from_be_bytes(b), 2, 10)
+        }
+        n => (n as u64, 0, 2),
+    };
+    let mask = if buf[1] & 0x80 != 0 {
+        let m = [buf[at], buf[at + 1], buf[at + 2], buf[at + 3]];
+        at += 4;
+        Some(m)
+    } else {
+        None
+    };
+    debug_assert_eq!(at, hl);
+    let minimal = match form {
+        0 => true,
+        1 => len > 125,
+        _ => len > 0xFFFF && len >> 63 == 0,
+    };
+    Some(Header { fin: buf[0] & 0x80 != 0, rsv: (buf[0] >> 4) & 7, opcode: buf[0] & 0x0f, mask, len, header_len: hl, form, minimal })
+}
+
+// ------------------------------------------------------------------------------------------------
+// The judge
+// ------------------------------------------------------------------------------------------------
+
+/// What a receiver hands to the application for one frame (fragment-level view, which is what the
+/// property's codec exposes).
+#[derive(Clone, Debug, PartialEq, Eq)]
+pub enum Delivery {
+    Text(Vec<u8>),
+    Binary(Vec<u8>),
+    FirstText(Vec<u8>),
+    FirstBinary(Vec<u8>),
+    Continue(Vec<u8>),
+    Last(Vec<u8>),
+    Ping(Vec<u8>),
+    Pong(Vec<u8>),
+    /// close code and reason bytes; `None` for an empty close body
+    Close(Option<(u16, Vec<u8>)>),
+}
+
+impl Delivery {
+    pub fn kind(&self) -> &'static str {
+        match self {
+            Delivery::Text(_) => "text",
+            Delivery::Binary(_) => "binary",
+            Delivery::FirstText(_) => "first-text",
+            Delivery::FirstBinary(_) => "first-binary",
+            Delivery::Continue(_) => "continue",
+            Delivery::Last(_) => "last",
+            Delivery::Ping(_) => "ping",
+            Delivery::Pong(_) => "pong",
+            Delivery::Close(_) => "close",
+        }
+    }
+    /// number of application payload bytes carried
+    pub fn size(&self) -> usize {
+        match self {
+            Delivery::Text(p)
+            | Delivery::Binary(p)
+            | Delivery::FirstText(p)
+            | Delivery::FirstBinary(p)
+            | Delivery::Continue(p)
+            | Delivery::Last(p)
+            | Delivery::Ping(p)
+            | Delivery::Pong(p) => p.len(),
+            Delivery::Close(None) => 0,
+            Delivery::Close(Some((_, r))) => 2 + r.len(),
+        }
+    }
+}
+
+/// The protocol violations the property names.
+#[derive(Clone, Copy, Debug, PartialEq, Eq)]
+pub enum Reject {
+    UnmaskedToServer,
+    MaskedToClient,
+    ReservedOpcode,
+    ControlFragmented,
+    ControlTooLong,
+    ContinuationWithoutStart,
+    StartInsideFragmented,
+    /// payload length above the configured maximum: to be refused from the header alone
+    TooBig,
+}
+
+impl Reject {
+    pub fn name(&self) -> &'static str {
+        match self {
+            Reject::UnmaskedToServer => "unmasked-to-server",
+            Reject::MaskedToClient => "masked-to-client",
+            Reject::ReservedOpcode => "reserved-opcode",
+            Reject::ControlFragmented => "control-fragmented",
+            Reject::ControlTooLong => "control-too-long",
+            Reject::ContinuationWithoutStart => "continuation-without-start",
+            Reject::StartInsideFragmented => "start-inside-fragmented",
+            Reject::TooBig => "too-big",
+        }
+    }
+}
+
+/// Things the RFC forbids or leaves open but the property statement does not name: the receiver
+/// may fail the connection or deliver; which one happened is counted, not judged.
+#[derive(Clone, Copy, Debug, PartialEq, Eq)]
+pub enum Latitude {
+    RsvBits,
+    NonMinimalLength,
+    /// close body of exactly one byte (no room for a code)
+    CloseBodyOneByte,
+    /// close body over 125 bytes turned into a bare protocol close
+    CloseTooLong,
+    /// close code that must not appear on the wire (§7.4.1/7.4.2)
+    CloseCodeNotForWire,
+    /// text / close reason that is not UTF-8 (the codec documents it does not validate)
+    InvalidUtf8,
+}
+
+impl Latitude {
+    pub fn name(&self) -> &'static str {
+        match self {
+            Latitude::RsvBits => "rsv-bits",
+            Latitude::NonMinimalLength => "non-minimal-length",
+            Latitude::CloseBodyOneByte => "close-body-1-byte",
+            Latitude::CloseTooLong => "close-over-125",
+            Latitude::CloseCodeNotForWire => "close-code-not-for-wire",
+            Latitude::InvalidUtf8 => "invalid-utf8",
+        }
+    }
+}
+
+#[derive(Clone, Debug, PartialEq, Eq)]
+pub enum Outcome {
+    /// the receiver must deliver exactly this
+    Deliver(Delivery),
+    /// the receiver must report an error, at the latest when the whole frame has arrived
+    Reject(Reject),
+    /// the receiver must report an error as soon as the header has arrived (no waiting for payload)
+    RejectAtHeader(Reject),
+    /// error or this delivery are both acceptable
+    Either(Delivery, Latitude),
+}
+
+#[derive(Clone, Debug)]
+pub struct Judged {
+    pub start: usize,
+    /// first payload byte (header complete once this many stream bytes arrived)
+    pub hdr_end: usize,
+    /// one past the last payload byte; may lie beyond the end of the stream
+    pub end: u64,
+    pub header: Header,
+    /// receiver was inside a fragmented message when this frame started
+    pub in_frag: bool,
+    pub outcome: Outcome,
+}
+
+#[derive(Clone, Debug, Default)]
+pub struct Judgement {
+    /// frames whose header is completely inside the stream, in order, up to and including the
+    /// first one that must be rejected (or whose payload is incomplete)
+    pub frames: Vec<Judged>,
+    /// bytes after the last listed frame: an incomplete header (possibly empty)
+    pub tail_start: usize,
+    /// for an incomplete *header* at the tail: a violation already visible in its first two bytes
+    /// (an early error is acceptable there, silence too)
+    pub tail_doomed: Option<Reject>,
+    /// header of an acceptable frame at the tail whose payload has not arrived completely
+    pub pending: Option<Header>,
+}
+
+pub fn valid_wire_close_code(code: u16) -> bool {
+    matches!(code, 1000..=1003 | 1007..=1014 | 3000..=4999)
+}
+
+/// Violations visible in the first two header bytes (role, opcode, FIN, 7-bit length, fragment state).
+fn early_reject(b0: u8, b1: u8, server: bool, in_fragmented: bool) -> Option<Reject> {
+    let masked = b1 & 0x80 != 0;
+    let op = b0 & 0x0f;
+    let fin = b0 & 0x80 != 0;
+    if server && !masked {
+        return Some(Reject::UnmaskedToServer);
+    }
+    if !server && masked {
+        return Some(Reject::MaskedToClient);
+    }
+    if is_reserved(op) {
+        return Some(Reject::ReservedOpcode);
+    }
+    if is_control(op) {
+        // an over-long close is the documented exception (see Latitude::CloseTooLong), FIN or not;
+        // its length is only known once the whole length field arrived
+        if !fin && !(op == OP_CLOSE && b1 & 0x7f > 125) {
+            return Some(Reject::ControlFragmented);
+        }
+    } else if op == OP_CONT {
+        if !in_fragmented {
+            return Some(Reject::ContinuationWithoutStart);
+        }
+    } else if in_fragmented {
+        return Some(Reject::StartInsideFragmented);
+    }
+    None
+}
+
+/// Judge a whole byte stream arriving at a receiver of the given role with the given maximum
+/// payload size, starting outside any fragmented message.
+pub fn judge(stream: &[u8], server: bool, max_size: u64) -> Judgement {
+    let mut j = Judgement::default();
+    let mut at = 0usize;
+    let mut in_frag = false;
+    loop {
+        j.tail_start = at;
+        let rest = &stream[at..];
+        let Some(h) = parse_header(rest) else {
+            if rest.len() >= 2 {
+                j.tail_doomed = early_reject(rest[0], rest[1], server, in_frag);
+            }
+            return j;
+        };
+        let hdr_end = at + h.header_len;
+        let frag_before = in_frag;
+        let end = hdr_end as u64 + h.len.min(u64::MAX - hdr_end as u64);
+        let complete = end <= stream.len() as u64;
+        let outcome = if h.len > max_size || h.len >> 63 != 0 {
+            // whatever else is wrong with it, it must be refused from the header alone
+            Outcome::RejectAtHeader(Reject::TooBig)
+        } else if let Some(r) = early_reject(rest[0], rest[1], server, in_frag) {
+            Outcome::Reject(r)
+        } else if is_control(h.opcode) && h.len > 125 && h.opcode != OP_CLOSE {
+            Outcome::Reject(Reject::ControlTooLong)
+        } else if h.opcode == OP_CLOSE && !h.fin && h.len <= 125 {
+            // non-minimal length form hid the real length from the two-byte check
+            Outcome::Reject(Reject::ControlFragmented)
+        } else if !complete {
+            // acceptable so far, payload still to come: nothing to deliver, nothing to reject
+            j.tail_start = at;
+            j.pending = Some(h);
+            return j;
+        } else {
+            let mut payload = stream[hdr_end..end as usize].to_vec();
+            if let Some(m) = h.mask {
+                xor_mask(&mut payload, m);
+            }
+            let mut lat: Option<Latitude> = None;
+            if h.rsv != 0 {
+                lat = Some(Latitude::RsvBits);
+            } else if !h.minimal {
+                lat = Some(Latitude::NonMinimalLength);
+            }
+            let d = match (h.opcode, h.fin) {
+                (OP_TEXT, true) => {
+                    if lat.is_none() && std::str::from_utf8(&payload).is_err() {
+                        lat = Some(Latitude::InvalidUtf8);
+                    }
+                    Delivery::Text(payload)
+                }
+                (OP_BINARY, true) => Delivery::Binary(payload),
+                (OP_TEXT, false) => {
+                    in_frag = true;
+                    Delivery::FirstText(payload)
+                }
+                (OP_BINARY, false) => {
+                    in_frag = true;
+                    Delivery::FirstBinary(payload)
+                }
+                (OP_CONT, false) => Delivery::Continue(payload),
+                (OP_CONT, true) => {
+                    in_frag = false;
+                    Delivery::Last(payload)
+                }
+                (OP_PING, _) => Delivery::Ping(payload),
+                (OP_PONG, _) => Delivery::Pong(payload),
+                _ => {
+                    // close
+                    if payload.len() > 125 {
+                        lat = lat.or(Some(Latitude::CloseTooLong));
+                        Delivery::Close(None)
+                    } else if payload.is_empty() {
+                        Delivery::Close(None)
+                    } else if payload.len() == 1 {
+                        lat = lat.or(Some(Latitude::CloseBodyOneByte));
+                        Delivery::Close(None)
+                    } else {
+                        let code = u16::from_be_bytes([payload[0], payload[1]]);
+                        if !valid_wire_close_code(code) {
+                            lat = lat.or(Some(Latitude::CloseCodeNotForWire));
+                        }
+                        if std::str::from_utf8(&payload[2..]).is_err() {
+                            lat = lat.or(Some(Latitude::InvalidUtf8));
+                        }
+                        Delivery::Close(Some((code, payload[2..].to_vec())))
+                    }
+                }
+            };
+            match lat {
+                None => Outcome::Deliver(d),
+                Some(l) => Outcome::Either(d, l),
+            }
+        };
+        let stop = matches!(outcome, Outcome::Reject(_) | Outcome::RejectAtHeader(_));
+        j.frames.push(Judged { start: at, hdr_end, end, header: h, in_frag: frag_before, outcome });
+        if stop {
+            j.tail_start = stream.len();
+            return j;
+        }
+        at = end as usize;
+    }
+}
